@@ -58,7 +58,10 @@ func showSummary(s *pgdump.WALSummary) string {
 	})
 }
 
-// materialise writes the directory (name, content) pairs as <tmp>/pg_wal/<name> and returns <tmp>.
+// materialise creates the directory entries (name, content) as <tmp>/pg_wal/<name> and returns <tmp>.
+// content: hexrle = a regular file with these bytes; "d:" = a directory; "l:"+hexrle = a symbolic link to a regular
+// file holding the bytes (kept outside pg_wal).  WAL segments are regular files (fixes/entry/04): the other kinds must
+// not be read.
 func materialise(args []string) string {
 	tmp, err := os.MkdirTemp("", "verif-wal-")
 	if err != nil {
@@ -70,7 +73,20 @@ func materialise(args []string) string {
 	}
 	for i := 0; i+1 < len(args); i += 2 {
 		name := string(core.Unhex(args[i]))
-		if err := os.WriteFile(filepath.Join(wal, name), core.Unhex(args[i+1]), 0o644); err != nil {
+		c := args[i+1]
+		var err error
+		switch {
+		case strings.HasPrefix(c, "d:"):
+			err = os.Mkdir(filepath.Join(wal, name), 0o755)
+		case strings.HasPrefix(c, "l:"):
+			target := filepath.Join(tmp, fmt.Sprintf("target-%d", i))
+			if err = os.WriteFile(target, core.Unhex(c[2:]), 0o644); err == nil {
+				err = os.Symlink(target, filepath.Join(wal, name))
+			}
+		default:
+			err = os.WriteFile(filepath.Join(wal, name), core.Unhex(c), 0o644)
+		}
+		if err != nil {
 			panic("harness: " + err.Error())
 		}
 	}
@@ -105,7 +121,7 @@ func init() {
 		pgdump.ParseWALFile(core.Unhex(args[0]))
 		return "ok"
 	})
-	// waldir: args = limit, then (name hex, content hexrle) pairs; summary | recent records
+	// waldir: args = limit, then (name hex, content) pairs (see materialise); summary | recent records
 	core.Register("waldir", func(args []string) string {
 		limit := core.Atoi(args[0])
 		tmp := materialise(args[1:])
